@@ -76,7 +76,11 @@ def custom_converters():
     def c4(img, scale, a, b=0.0):
         return img * a + b / scale
 
-    return {"c0": c0, "c1": c1, "c2": c2, "c4": c4}
+    @converter_function
+    def cpos(img, scale, k=1.0):
+        return np.abs(img) + k
+
+    return {"c0": c0, "c1": c1, "c2": c2, "c4": c4, "cpos": cpos}
 
 
 RAW = {
@@ -87,6 +91,7 @@ RAW = {
     "c1": lambda img, scale: img * 2.0,
     "c2": lambda img, scale: img + scale,
     "c4": lambda img, scale, a, b=0.0: img * a + b / scale,
+    "cpos": lambda img, scale, k=1.0: np.abs(img) + k,
 }
 OPS = {"+": np.add, "-": np.subtract, "*": np.multiply, "/": np.divide,
        "<": np.less, "<=": np.less_equal, ">": np.greater, ">=": np.greater_equal, "==": np.equal, "!=": np.not_equal}
@@ -373,6 +378,9 @@ def judge_units(d):
             if abs(ratio - 1) < d["tol"] * 0.9:
                 if res is not blob and not np.array_equal(res, blob):
                     out.append(viol("C19/rescale-within-tolerance", f"ratio {ratio} within tol {d['tol']}: image was changed"))
+                lst = pipe.from_arrays([blob, blob * 2], original_scale=osc, tol=d["tol"])(req)
+                if len(lst) != 2 or lst[0].shape != blob.shape or not np.array_equal(lst[0], blob) or not np.array_equal(lst[1], blob * 2):
+                    out.append(viol("C19/from_arrays-within-tolerance", f"ratio {ratio} within tol {d['tol']}: from_arrays changed the images (shape {lst[0].shape} vs {blob.shape})"))
             elif abs(ratio - 1) > d["tol"] * 1.1:
                 want_shape = tuple(int(round(n * ratio)) for n in blob.shape)
                 if res.shape != want_shape:
@@ -469,6 +477,10 @@ def positive_provider(scale):
     return st.builds(lambda s: {"t": "from_array", "seed": s, "kind": "positive", "oscale": scale}, gen.seeds)
 
 
+def positive_converter():
+    return st.builds(lambda k: {"t": "conv", "name": "cpos", "args": [k]}, st.sampled_from([1.0, 2.5]))
+
+
 def exprs(scale):
     sc = st.builds(lambda v: {"t": "scalar", "v": v}, scalars)
 
@@ -486,7 +498,8 @@ def exprs(scale):
             st.builds(lambda x: {"t": "neg", "x": x}, conv),
             st.builds(lambda op, l, r: {"t": "binop", "op": op, "l": l, "r": r}, st.sampled_from(["+", "-", "*"]), conv, st.one_of(conv, prov, sc)),
             st.builds(lambda op, l, r: {"t": "binop", "op": op, "l": l, "r": r}, st.sampled_from(["+", "-", "*"]), sc, conv),
-            st.builds(lambda l, r: {"t": "binop", "op": "/", "l": l, "r": r}, conv, st.one_of(sc, positive_provider(scale))),
+            st.builds(lambda l, r: {"t": "binop", "op": "/", "l": l, "r": r}, conv, st.one_of(sc, positive_provider(scale), positive_converter())),
+            st.builds(lambda l, r: {"t": "binop", "op": "/", "l": l, "r": r}, sc, positive_converter()),
             st.builds(lambda f, g: {"t": "compose", "f": f, "g": g}, conv, conv),
         )
         return new_prov, new_conv
@@ -536,8 +549,8 @@ def unit_cases(draw):
         # shape_px must survive round(shape_nm / scale) for both scales: integers do
     elif kind == "rescale":
         d["oscale"] = draw(st.sampled_from([1.0, 0.5, 1.37]))
-        d["tol"] = draw(st.sampled_from([0.01, 0.05]))
-        d["ratio"] = draw(st.sampled_from([1.0, 1.004, 0.997, 1.5, 0.5, 2.0, 0.75, 1.25]))
+        d["tol"] = draw(st.sampled_from([0.01, 0.05, 0.1]))
+        d["ratio"] = draw(st.sampled_from([1.0, 1.004, 0.997, 1.04, 0.96, 1.08, 1.5, 0.5, 2.0, 0.75, 1.25]))
     else:
         d["a"], d["b"] = draw(scalars), draw(scalars)
     return d
